@@ -69,6 +69,13 @@ def _check(prog, rep):
     words_t = ("call", "Iterator::collect", (("call", "crate::word_separators::WordSeparator::find_words",
                                               (("adt", "word_separators::WordSeparator", "AsciiSpace", ()), line)),))
     arr = ("call", "crate::wrap_algorithms::wrap_first_fit", (words_t, ("array", (("cast", "IntToFloat", WIDTH, "f64"),))))
+    # `v.iter().take(n)` visits the same elements as `v[..n].iter()` whenever n <= v.len() (and never panics)
+    if src is not None and src[0] == "call" and src[1] == "Iterator::take" and len(src[2]) == 2 \
+            and src[2][0][0] == "call" and src[2][0][1] in ("[]::iter", "Vec::iter"):
+        src = ("call", "Index::index", (src[2][0][2][0], ("adt", "std::ops::RangeTo", "RangeTo", (("end", src[2][1]),))))
+    elif src is not None and src[0] == "call" and src[1] in ("[]::iter", "Vec::iter") and src[2][0][0] == "call" \
+            and src[2][0][1] == "Index::index":
+        src = src[2][0]
     oksrc = src is not None and src[0] == "call" and src[1] == "Index::index"
     base = src[2][0] if oksrc else None
     r3.check(base == arr, "arrangement", "lines = wrap_first_fit(&AsciiSpace.find_words(line).collect(), &[width as f64])", D(base) if base else "?",
